@@ -57,7 +57,7 @@ Lemma generated_block_accepted : forall s tip g pe v x,
   (* same BFT state: the header carries the node's maxHeightPrevoted *)
   ge_mhp g = ve_node_mhp v ->
   (* C15_never_self_contradicting + the vote model of C02/C07; C06 for the aggregate commit; Ed25519 correctness *)
-  ve_contradicting v = false -> ve_agg_ok v = true -> ve_sig_ok v = true ->
+  ve_contradicting v = false -> agg_commit_ok (b_header (forge_block tip g)) v = true -> ve_sig_ok v = true ->
   (* execution replays what generation did on the same state: same answers, every selected transaction verified and
      executed, same events, same next parameters *)
   xe_abi_init_ok x = true -> xe_abi_verify_assets_ok x = true -> xe_bft_ok x = true -> xe_abi_before_ok x = true ->
@@ -78,10 +78,20 @@ Proof.
   assert (E2 : (slot_of v (ve_now v) <? slot_of v (ge_now g)) = false) by (apply N.ltb_ge; exact T2). rewrite E2.
   assert (E3 : (slot_of v (ge_now g) <=? slot_of v (h_timestamp tip)) = false) by (apply N.leb_gt; exact T1). rewrite E3.
   rewrite G1. cbn [negb]. destruct (ve_generators v) as [|g0 gs] eqn:Eg; [congruence|]. rewrite <- Eg in *. rewrite G2.
-  rewrite beq_refl, M, N.eqb_refl, C, A, S. cbn [negb].
+  unfold forge_block in A; cbn [b_header] in A. rewrite A.
+  rewrite beq_refl, M, N.eqb_refl, C, S. cbn [negb].
   unfold execute_block. rewrite X1, X2, X3, X4. cbn [negb]. rewrite (tx_loop_all_ok _ _ Xt). rewrite X5. cbn [negb].
   assert (E4 : (xe_params_changed x && negb (xe_set_params_ok x)) = false).
   { destruct (xe_params_changed x); [rewrite X6 by reflexivity|]; reflexivity. }
   rewrite E4. cbn [b_header h_vhash h_eventroot forge_block]. rewrite V, ER, !beq_refl. cbn [negb].
   assert (E5 : (max_events <? xe_nevents x) = false) by (apply N.ltb_ge; exact NE). rewrite E5, CM, ?N.eqb_refl. reflexivity.
+Qed.
+
+(* the aggregate commit GetAggregateCommit returns when nothing can be aggregated — empty, at maxHeightCertified — passes *)
+Lemma empty_agg_commit_ok : forall tip g v,
+  b_len (ge_agg_bits g) = 0 -> b_len (ge_agg_sig g) = 0 -> ge_agg_height g = ve_mh_cert v ->
+  agg_commit_ok (b_header (forge_block tip g)) v = true.
+Proof.
+  intros tip g v B S H. unfold agg_commit_ok, forge_block. cbn [b_header h_agg_bits h_agg_sig h_agg_height].
+  rewrite B, S, H. cbn [N.eqb andb]. rewrite N.eqb_refl. reflexivity.
 Qed.
